@@ -181,3 +181,52 @@ pub fn distinct_vec(rng: &mut Rng, n: usize, specials: bool) -> Vec<f64> {
     }
     v
 }
+
+// ---------------------------------------------------------------------------------------------
+// Fault injection on the library's RNG stream.
+//
+// `alea` is wyrand behind a thread-local: state += ALEA_STEP, output = mix(state). The states below
+// were found by exhaustive search at development time (tools/wysearch.rs): after
+// `alea::set_seed(state)` the NEXT raw 64-bit word has an extreme 32-bit half — the values at which
+// "inclusive end point" slips of a sampler show (u32() is the low half, f64() the top 53 bits).
+// `alea_selftest` re-checks them against the real generator at start-up.
+
+pub const ALEA_STEP: u64 = 0xa0761d6478bd642f;
+
+pub const ADVERSARIAL_ALEA: &[(&str, u64)] = &[
+    ("low32=ffffffff", 12034917161822398798),
+    ("low32=ffffffff", 12510526601679112987),
+    ("low32=00000000", 6382818847485331353),
+    ("low32=00000000", 5508874857206705109),
+    ("high32=ffffffff", 7357600924370692596),
+    ("high32=ffffffff", 15225147840636228787),
+    ("high32=00000000", 10449270968010065747),
+    ("high32=00000000", 4673566545782114139),
+];
+
+/// Seed after which the (k+1)-th raw word is the adversarial word of `state` (k = 0: the next one).
+pub fn adversarial_seed(state: u64, k: u64) -> u64 {
+    state.wrapping_sub(k.wrapping_mul(ALEA_STEP))
+}
+
+pub fn alea_selftest() -> Result<(), String> {
+    for &(kind, s) in ADVERSARIAL_ALEA {
+        for k in [0u64, 3] {
+            alea::set_seed(adversarial_seed(s, k));
+            for _ in 0..k {
+                alea::u64();
+            }
+            let w = alea::u64();
+            let ok = match kind {
+                "low32=ffffffff" => w as u32 == u32::MAX,
+                "low32=00000000" => w as u32 == 0,
+                "high32=ffffffff" => (w >> 32) as u32 == u32::MAX,
+                _ => (w >> 32) as u32 == 0,
+            };
+            if !ok {
+                return Err(format!("adversarial alea state {} ({}) gives word {:016x}", s, kind, w));
+            }
+        }
+    }
+    Ok(())
+}
